@@ -135,7 +135,7 @@ pub fn main(args: &[String]) {
                 ns.sort();
                 ns.dedup();
                 for p in profiles.iter() {
-                    for op in ops.iter() {
+                    for op in ops.iter().filter(|o| *o != "compare") {
                         let r1 = call_profile(p, op, &[u.clone()]);
                         calls += 1;
                         if r1.get("ok").is_some() {
@@ -218,6 +218,46 @@ pub fn main(args: &[String]) {
         err_units += b;
     }
     problems.truncate(40);
+    // compare on padded pairs: two units with the same head and tail (the second a respelling of the first: upper case,
+    // decomposed, compatibility-composed, doubled middle) compare as their padded versions do
+    let mut pairs: Vec<String> = Vec::new();
+    if ops.iter().any(|o| o == "compare") {
+        for u in units.iter() {
+            let chars: Vec<char> = u.chars().collect();
+            if chars.len() < 3 {
+                continue;
+            }
+            let (h, t) = (chars[0], chars[chars.len() - 1]);
+            let mid: String = chars[1..chars.len() - 1].iter().collect();
+            let respell: [String; 5] = [mid.clone(), mid.to_uppercase(), mid.nfd().collect(), mid.nfkc().collect(), format!("{}{}", mid, mid)];
+            for (vi, m2) in respell.iter().enumerate() {
+                let v = format!("{}{}{}", h, m2, t);
+                pairs.push(u.clone());
+                pairs.push(v.clone());
+                for p in profiles.iter() {
+                    let r1 = call_profile(p, "compare", &[u.clone(), v.clone()]);
+                    calls += 1;
+                    for (x, ib) in PAD_BYTES.iter().enumerate().filter(|(x, _)| (x + vi) % 3 == 0) {
+                        let i = ib / h.len_utf8();
+                        let j = if x % 2 == 0 { 0 } else { 3 };
+                        let pad = |s: &str| -> String { std::iter::repeat(h).take(i).chain(s.chars()).chain(std::iter::repeat(t).take(j)).collect() };
+                        let got = call_profile(p, "compare", &[pad(u), pad(&v)]);
+                        calls += 1;
+                        let mut exp = r1.clone();
+                        if let Some(pos) = r1.get("pos").and_then(|x| x.as_u64()) {
+                            exp["pos"] = json!(pos + i as u64);
+                        }
+                        if got != exp && problems.len() < 40 {
+                            problems.push(json!({"profile": p, "op": "compare", "a": string_to_cps(u), "b": string_to_cps(&v), "pad_front": i, "pad_back": j,
+                                                 "expected": exp, "actual": got}));
+                        }
+                    }
+                }
+            }
+        }
+        std::fs::write(format!("{}/pairs.ndjson", dir), pairs.iter().map(|s| string_to_cps(s).to_string() + "\n").collect::<String>())
+            .unwrap_or_else(|e| tool_error(&e.to_string()));
+    }
     // context rules and the standard classes on padded labels (CtxPadLaw / AllowsPadLaw of MC_Context.tla): offsets
     // far beyond 255 / 65535 characters
     let mut ctx_calls = 0u64;
